@@ -21,6 +21,15 @@ import (
 
 const VerifRoot = "/verif"
 
+// RepoRoot is the tree the harness was built against: /repo, unless VERIF_REPO names a
+// scratch copy (evaluation of seeded changes only).
+func RepoRoot() string {
+	if d := os.Getenv("VERIF_REPO"); d != "" {
+		return strings.TrimRight(d, "/")
+	}
+	return "/repo"
+}
+
 // OutRoot is where evidence and replay files are written: /verif, unless
 // VERIF_OUT redirects them (used when a seeded change is evaluated in a
 // scratch copy so that the committed evidence is not touched).
